@@ -285,6 +285,7 @@ const LADDERS: &[&str] = &[
     "path-after-closepath", "points-length", "transform-list", "reuse-chain", "use-chain", "var-chain-reverse", "prev-chain", "forward-ref-chain", "forward-ref-nested-groups", "loop-nest",
     "loop-count", "for-list", "var-growth", "defaults-count", "comment-length", "cdata-length", "entity-count", "class-count", "surround-list", "connector-count", "deep-unclosed", "many-roots",
     "var-paren-indirection", "clip-chain", "var-doubling-groups", "var-doubling-reuse", "var-sum-tree", "nest-g-lifted-limit", "loop-defaults",
+    "waiting-many-vars", "waiting-then-comments", "waiting-many", "points-references", "retry-growing-id", "specs-double-reuse",
 ];
 
 fn rungs(tier: Tier) -> Vec<u64> {
@@ -433,6 +434,31 @@ fn ladder_doc(family: &str, n: u64) -> Option<(String, u64)> {
             }
             s.push_str(&format!("<var v0=\"1\"/><rect wh=\"{{{{$v{k}}}}}\"/>"));
             (s, k as u64 + 2)
+        }
+        // third review round: the bookkeeping of elements which wait for a forward reference
+        "waiting-many-vars" => {
+            // n variables in scope, one element which waits, n groups after it
+            let vars: String = (0..n_us).map(|i| format!("<var v{i}=\"{i}\"/>")).collect();
+            (format!("<svg>{vars}<rect xy=\"#z|h\" wh=\"1\"/>{}<rect id=\"z\" wh=\"1\"/></svg>", rep("<g><rect wh=\"1\"/></g>", n_us)), 3 * n + 3)
+        }
+        "waiting-then-comments" => (format!("<svg><rect xy=\"#z\" wh=\"1\"/>{}<rect id=\"z\" wh=\"1\"/></svg>", rep("<!--c--><defs/>", n_us)), n + 3),
+        "waiting-many" => {
+            // n variables in scope and n elements which all wait for the last one
+            let vars: String = (0..n_us).map(|i| format!("<var v{i}=\"{i}\"/>")).collect();
+            (format!("<svg>{vars}{}<rect id=\"z\" wh=\"1\"/></svg>", rep("<rect xy=\"#z|h\" wh=\"1\"/>", n_us)), 3 * n + 3)
+        }
+        "points-references" => (format!("<svg><rect id=\"a\" wh=\"5\"/><polyline points=\"{}\"/><path d=\"M {}\"/></svg>", rep("#a@c ", n_us), rep("#a@t:2.5 ", n_us)), 3),
+        // a group which fails for good while an id inside it takes a new value at every attempt
+        "retry-growing-id" => (format!("<svg><g id=\"t\"><rect wh=\"1\"/></g><rect id=\"b\" wh=\"1\"/>{}<g><rect id=\"a\" width=\"{{{{#b~w + 1}}}}\" height=\"1\"/><rect id=\"b\" width=\"{{{{#a~w}}}}\" height=\"1\"/><reuse id=\"r{{{{#b~w}}}}\" href=\"#t\"/><rect xy=\"#nope\" wh=\"1\"/></g></svg>", rep("<rect wh=\"1\"/>", n_us.min(64))), n.min(64) + 10),
+        // templates in <specs> which each reuse the previous one twice: 2^k instances for 2k elements
+        "specs-double-reuse" => {
+            let k = n_us.min(40);
+            let mut s = String::from("<svg><specs><g id=\"a0\"><rect wh=\"1\"/></g>");
+            for i in 1..=k {
+                s.push_str(&format!("<g id=\"a{i}\"><reuse href=\"#a{}\"/><reuse href=\"#a{}\"/></g>", i - 1, i - 1));
+            }
+            s.push_str("</specs><rect wh=\"1\"/></svg>");
+            (s, 3 * k as u64 + 3)
         }
         "many-roots" => (rep("<svg><rect wh=\"1\"/></svg>", n_us), 2 * n),
         _ => return None,
